@@ -277,3 +277,9 @@ func StIterator(ctx context.Context, store string, start, end []byte, reverse bo
 
 // NewCtx returns a context with symbolic block height, time and chain id over fresh symbolic stores.
 func NewCtx() sdk.Context { return nativeNewCtx() }
+
+// ExactBigEndian(true): 8-byte big-endian words are exact byte vectors instead of the abstract injective encoding.
+func ExactBigEndian(on bool) {}
+
+// CollisionFree(true): assume the hash functions are injective on the values that occur (stated per harness).
+func CollisionFree(on bool) {}
